@@ -42,7 +42,8 @@ Definition as_count (v : val) : option Z :=
   match v with VI z => Some z | VB b => Some (if b then 1 else 0) | _ => None end.
 
 Inductive ev := EvSer (v : val) | EvDelay (v : val) | EvX (id : Z) (v : val).
-Inductive outcome := ONormal | OBreak.
+(* how a statement list ends: normally, by `break`, by `continue`, or (C side only) by `return;` *)
+Inductive outcome := ONormal | OBreak | OContinue | OReturn.
 
 Section Sem.
   Variable sem : Z -> list (option val) -> option val.
@@ -77,12 +78,12 @@ Section Sem.
         let continue_with := fun (r : option (penv * list ev * outcome)) =>
           match r with
           | None => None
-          | Some (rho1, e1, OBreak) => Some (rho1, e1, OBreak)
           | Some (rho1, e1, ONormal) =>
               match pexec f rho1 rest with
               | None => None
               | Some (rho2, e2, o) => Some (rho2, e1 ++ e2, o)
               end
+          | Some (rho1, e1, o) => Some (rho1, e1, o)
           end in
         match p with
         | PAssign x e =>
@@ -98,6 +99,7 @@ Section Sem.
                                 | Some vs => Some (pbinds xs vs rho, [], ONormal) | None => None end
                            else None)
         | PBreak => Some (rho, [], OBreak)
+        | PContinue => Some (rho, [], OContinue)
         | PWrite e => continue_with (match peval e rho with Some v => Some (rho, [EvSer v], ONormal) | None => None end)
         | PSleep e => continue_with (match peval e rho with Some v => Some (rho, [EvDelay v], ONormal) | None => None end)
         | PExprS e =>
@@ -128,7 +130,8 @@ Section Sem.
                   | Some (rho1, e1, OBreak) =>
                       match pexec f rho1 rest with
                       | None => None | Some (rho2, e2, o) => Some (rho2, e1 ++ e2, o) end
-                  | Some (rho1, e1, ONormal) =>
+                  | Some (rho1, e1, OReturn) => None        (* no Python statement of the fragment produces it *)
+                  | Some (rho1, e1, _) =>                    (* body completed or `continue`: test the condition again *)
                       match pexec f rho1 (PWhile c body :: rest) with
                       | None => None | Some (rho2, e2, o) => Some (rho2, e1 ++ e2, o) end
                   end
@@ -148,7 +151,8 @@ Section Sem.
                           match pexec f (pset x (VI i) rho0) body with
                           | None => None
                           | Some (rho1, e1, OBreak) => Some (rho1, e1)
-                          | Some (rho1, e1, ONormal) =>
+                          | Some (rho1, e1, OReturn) => None
+                          | Some (rho1, e1, _) =>             (* body completed or `continue`: next value *)
                               match iter k' (i + 1) rho1 with
                               | None => None | Some (rho2, e2) => Some (rho2, e1 ++ e2) end
                           end
@@ -170,8 +174,9 @@ Section Sem.
     match n with
     | O => Some []
     | S k =>
+        (* a `continue` at the level of the main loop ends the pass *)
         match pexec fuel rho body with
-        | Some (rho1, e1, ONormal) =>
+        | Some (rho1, e1, ONormal) | Some (rho1, e1, OContinue) =>
             match ppasses fuel k rho1 body with Some e2 => Some (e1 ++ e2) | None => None end
         | _ => None
         end
@@ -230,10 +235,10 @@ Section Sem.
         let continue_with := fun (r : option (cstore * list ev * outcome)) =>
           match r with
           | None => None
-          | Some (s1, e1, OBreak) => Some (s1, e1, OBreak)
           | Some (s1, e1, ONormal) =>
               match cexec f s1 rest with
               | None => None | Some (s2, e2, o) => Some (s2, e1 ++ e2, o) end
+          | Some (s1, e1, o) => Some (s1, e1, o)
           end in
         (* a nested block: its local declarations die at the closing brace *)
         let block := fun (s0 : cstore) (b : list cnode) =>
@@ -254,6 +259,8 @@ Section Sem.
                            | Some v => match cupd x v sg with Some s1 => Some (s1, [], ONormal) | None => None end
                            | None => None end)
         | NBreak => Some (sg, [], OBreak)
+        | NContinue => Some (sg, [], OContinue)
+        | NReturn => Some (sg, [], OReturn)
         | NWrite id => continue_with (match cev id sg with Some v => Some (sg, [EvSer v], ONormal) | None => None end)
         | NSleep id => continue_with (match cev id sg with Some v => Some (sg, [EvDelay v], ONormal) | None => None end)
         | NExprS id => continue_with (match cev id sg with Some v => Some (sg, [EvX id v], ONormal) | None => None end)
@@ -277,7 +284,8 @@ Section Sem.
                   | Some (s1, e1, OBreak) =>
                       match cexec f s1 rest with
                       | None => None | Some (s2, e2, o) => Some (s2, e1 ++ e2, o) end
-                  | Some (s1, e1, ONormal) =>
+                  | Some (s1, e1, OReturn) => Some (s1, e1, OReturn)     (* `return;` leaves the function *)
+                  | Some (s1, e1, _) =>
                       match cexec f s1 (NWhile c body :: rest) with
                       | None => None | Some (s2, e2, o) => Some (s2, e1 ++ e2, o) end
                   end
@@ -285,7 +293,8 @@ Section Sem.
             end
         | NFor x cnt body =>
             (* for (int x = 0; x < cnt; ++x) { body }   -- cnt is re-evaluated before every iteration *)
-            let fix iter (k : nat) (s0 : cstore) : option (cstore * list ev) :=
+            (* the flag of the result: the body executed `return;` *)
+            let fix iter (k : nat) (s0 : cstore) : option (cstore * list ev * bool) :=
               match k with
               | O => None                                  (* iteration budget exhausted *)
               | S k' =>
@@ -297,27 +306,29 @@ Section Sem.
                           if i <? n then
                             match block s0 body with
                             | None => None
-                            | Some (s1, e1, OBreak) => Some (s1, e1)
-                            | Some (s1, e1, ONormal) =>
+                            | Some (s1, e1, OBreak) => Some (s1, e1, false)
+                            | Some (s1, e1, OReturn) => Some (s1, e1, true)
+                            | Some (s1, e1, _) =>               (* body completed or `continue;`: ++x *)
                                 match clook s1 x with
                                 | Some (VI j) =>
                                     match cupd x (VI (j + 1)) s1 with
                                     | None => None
                                     | Some s2 =>
                                         match iter k' s2 with
-                                        | None => None | Some (s3, e3) => Some (s3, e1 ++ e3) end
+                                        | None => None | Some (s3, e3, r) => Some (s3, e1 ++ e3, r) end
                                     end
                                 | _ => None
                                 end
                             end
-                          else Some (s0, [])
+                          else Some (s0, [], false)
                       end
                   | _, _ => None
                   end
               end in
             match iter fuel ((x, (TyInt, VI 0)) :: sg) with
             | None => None
-            | Some (s1, e1) =>
+            | Some (s1, e1, true) => Some (lastn (length sg) s1, e1, OReturn)
+            | Some (s1, e1, false) =>
                 match cexec f (lastn (length sg) s1) rest with
                 | None => None | Some (s2, e2, o) => Some (s2, e1 ++ e2, o) end
             end
@@ -340,8 +351,9 @@ Section Sem.
     match n with
     | O => Some []
     | S k =>
+        (* loop() ran to its end or returned early *)
         match cexec fuel sg body with
-        | Some (s1, e1, ONormal) =>
+        | Some (s1, e1, ONormal) | Some (s1, e1, OReturn) =>
             match cpasses fuel k (lastn (length sg) s1) body with Some e2 => Some (e1 ++ e2) | None => None end
         | _ => None
         end
@@ -353,7 +365,7 @@ Section Sem.
     | None => None
     | Some g0 =>
         match cexec fuel g0 (c_setup c) with
-        | Some (s1, e0, ONormal) =>
+        | Some (s1, e0, ONormal) | Some (s1, e0, OReturn) =>
             if main_present
             then match cpasses fuel n (lastn (length g0) s1) (c_loop c) with
                  | Some e1 => Some (e0 ++ e1) | None => None end
